@@ -29,6 +29,28 @@ var extraBackends []BackendSpec
 // Register adds a backend (unistore registers itself from its own file).
 func Register(b BackendSpec) { extraBackends = append(extraBackends, b) }
 
+// BackendsTier returns the backend table for a tier: in the quick tier unistore is used only for
+// the commit modes the in-repo mock lacks (async commit, one-phase commit); thorough uses all six.
+func BackendsTier(thorough bool) []BackendSpec {
+	bs := Backends()
+	if thorough {
+		return bs
+	}
+	for i := range bs {
+		if bs[i].Name != "unistore" {
+			continue
+		}
+		var ms []txnh.Mode
+		for _, m := range bs[i].Modes {
+			if (m.Async || m.OnePC) && !(m.Pessimistic && m.OnePC) {
+				ms = append(ms, m)
+			}
+		}
+		bs[i].Modes = ms
+	}
+	return bs
+}
+
 // Backends returns the table of store backends.
 func Backends() []BackendSpec {
 	out := []BackendSpec{{
